@@ -126,21 +126,27 @@ func c14CeremonyTx(w *World, r *verifutil.Rng, from *Actor, t types.TxType, nonc
 }
 
 func c14CeremonyTxAt(st *state.StateDB, ns int, r *verifutil.Rng, from *Actor, t types.TxType, nonce uint32, epoch uint16) *types.Transaction {
+	return c14CeremonyTxSized(st, ns, r, from, t, nonce, epoch, 0)
+}
+
+// c14CeremonyTxSized: pad > 0 inflates the free-form part of the payload (answers / evidence
+// bitmap) by that many bytes; the types stay well-formed for the validators.
+func c14CeremonyTxSized(st *state.StateDB, ns int, r *verifutil.Rng, from *Actor, t types.TxType, nonce uint32, epoch uint16, pad int) *types.Transaction {
 	var payload []byte
 	switch t {
 	case types.SubmitAnswersHashTx:
 		payload = r.Bytes(common.HashLength)
 	case types.SubmitShortAnswersTx:
-		payload = attachments.CreateShortAnswerAttachment(r.Bytes(r.Range(1, 6)), r.U64(), 0)
+		payload = attachments.CreateShortAnswerAttachment(r.Bytes(r.Range(1, 6)+pad), r.U64(), 0)
 	case types.SubmitLongAnswersTx:
 		seed := st.FlipWordsSeed()
 		var proof []byte
 		if signer, err := p256.NewVRFSigner(from.Key); err == nil {
 			_, proof = signer.Evaluate(seed[:])
 		}
-		payload, _ = (&attachments.LongAnswerAttachment{Answers: r.Bytes(r.Range(1, 8)), Proof: proof, Key: r.Bytes(32), Salt: r.Bytes(16)}).ToBytes()
+		payload, _ = (&attachments.LongAnswerAttachment{Answers: r.Bytes(r.Range(1, 8) + pad), Proof: proof, Key: r.Bytes(32), Salt: r.Bytes(16)}).ToBytes()
 	case types.EvidenceTx:
-		payload = r.Bytes(r.Range(1, 12))
+		payload = r.Bytes(r.Range(1, 12) + pad)
 	}
 	return c14TxAt(st, ns, from, t, nil, nil, payload, nonce, epoch, 30)
 }
@@ -259,6 +265,7 @@ type c14Seq struct {
 	removedEv []*types.Transaction
 	senders   []*Actor
 	rich      []*Actor
+	cerProbed map[state.ValidationPeriod]bool
 	log       []string
 	opNo      int
 	progress  *int64
@@ -648,25 +655,72 @@ func (s *c14Seq) opStopSync() *c14Op {
 // executable exceeds the block gas cap (the offered list is checked after every op anyway).
 func (s *c14Seq) opGasProbe() *c14Op {
 	st := s.state()
-	if s.syncing || st.ValidationPeriod() != state.NonePeriod {
+	if s.syncing {
 		return nil
 	}
 	op := &c14Op{kind: "gasprobe"}
 	var d []string
+	submit := func(tx *types.Transaction) error {
+		err := s.pool.AddExternalTxs(validation.MempoolTx, tx)
+		op.submitted = append(op.submitted, tx)
+		if err == nil {
+			op.accepted = append(op.accepted, tx)
+		} else if strings.HasPrefix(c14ErrClass(err), "limit:") {
+			s.out.Count("limit_rejections", 1)
+		}
+		d = append(d, fmt.Sprintf("%s->%s", s.txStr(tx), c14ErrClass(err)))
+		s.gossip(tx)
+		return err
+	}
+	inCeremony := st.ValidationPeriod() != state.NonePeriod
 	for _, from := range s.rich {
 		for k := 0; k < 2; k++ {
 			n := s.poolMaxNonceIncl(from.Addr, st.Epoch(), op.accepted) + 1
 			to := s.senders[0].Addr
-			tx := c14Tx(s.w, from, types.SendTx, &to, s.amount(), s.r.Bytes(s.r.Range(120, 150)*1024), n, st.Epoch(), 12)
-			err := s.pool.AddExternalTxs(validation.MempoolTx, tx)
-			op.submitted = append(op.submitted, tx)
-			if err == nil {
-				op.accepted = append(op.accepted, tx)
-			} else if strings.HasPrefix(c14ErrClass(err), "limit:") {
-				s.out.Count("limit_rejections", 1)
+			submit(c14Tx(s.w, from, types.SendTx, &to, s.amount(), s.r.Bytes(s.r.Range(120, 150)*1024), n, st.Epoch(), 12))
+		}
+		// during a ceremony the big transfers are followed by a priority-type tx of the same
+		// sender: the builder's priority phase pulls the whole chain in front of it, so the
+		// block gas cap is crossed inside that phase
+		if inCeremony && state.IsCeremonyCandidate(st.GetIdentity(from.Addr)) {
+			off := s.r.Intn(len(c14PriorityTypes))
+			for k := range c14PriorityTypes {
+				t := c14PriorityTypes[(k+off)%len(c14PriorityTypes)]
+				n := s.poolMaxNonceIncl(from.Addr, st.Epoch(), op.accepted) + 1
+				if submit(c14CeremonyTx(s.w, s.r, from, t, n, st.Epoch())) == nil {
+					s.out.Count("gasprobe_priority_tail", 1)
+					break
+				}
 			}
-			d = append(d, fmt.Sprintf("%s->%s", s.txStr(tx), c14ErrClass(err)))
-			s.gossip(tx)
+		}
+	}
+	if inCeremony {
+		s.out.Count("gasprobe_in_ceremony", 1)
+		// large priority-type txs of further candidates: the priority tx itself is then the one
+		// that crosses the cap
+		v := s.w.View()
+		ns := v.AppState.ValidatorsCache.NetworkSize()
+		nBig := 0
+		for _, a := range s.w.SortedActors() {
+			if nBig >= 6 {
+				break
+			}
+			if a == s.w.Nodes[0] || !state.IsCeremonyCandidate(st.GetIdentity(a.Addr)) {
+				continue
+			}
+			off := s.r.Intn(len(c14PriorityTypes))
+			for k := range c14PriorityTypes {
+				t := c14PriorityTypes[(k+off)%len(c14PriorityTypes)]
+				if t == types.SubmitAnswersHashTx {
+					continue
+				}
+				n := s.poolMaxNonceIncl(a.Addr, st.Epoch(), op.accepted) + 1
+				if submit(c14CeremonyTxSized(st, ns, s.r, a, t, n, st.Epoch(), s.r.Range(50, 120)*1024)) == nil {
+					s.out.Count("gasprobe_big_priority_tx", 1)
+					nBig++
+					break
+				}
+			}
 		}
 	}
 	s.logf("gasprobe %v", d)
@@ -957,6 +1011,9 @@ func (s *c14Seq) check(op *c14Op, before map[common.Hash]*types.Transaction, que
 		}
 		if gasAll > types.MaxBlockSize(s.p.Cfg.Consensus.EnableUpgrade11) && len(list) < len(after) {
 			s.out.Count("offers_with_pool_over_gas_cap", 1)
+			if prio {
+				s.out.Count("offers_over_gas_cap_with_priority_tx", 1)
+			}
 		}
 		s.out.Max("max_offer_gas", int(gasOffered))
 	}
@@ -1020,6 +1077,13 @@ func (s *c14Seq) step() {
 	sel := s.r.Pick(52, 9, 4, 22, 3, 7, 5)
 	if s.opNo == 45 || s.opNo == 400 {
 		sel = 7 // twice per scenario: push the executable txs over the block gas cap
+	}
+	if per := s.state().ValidationPeriod(); per >= state.ShortSessionPeriod && !s.cerProbed[per] && !s.syncing {
+		if s.cerProbed == nil {
+			s.cerProbed = map[state.ValidationPeriod]bool{}
+		}
+		s.cerProbed[per] = true
+		sel = 7 // and once in every session the scenario reaches (priority phase of the builder)
 	}
 	if sel == 3 || sel == 5 || sel == 6 {
 		queues = s.pendingQueueSnapshot()
